@@ -54,7 +54,16 @@ func build(c *Case) *shared {
 		}
 	default:
 		s.idx = s2.NewShapeIndex()
-		for _, sp := range c.Shapes {
+		// Init "restale": the index was built once and then received more
+		// shapes, so the deferred construction the queries trigger is a rebuild.
+		half := -1
+		if c.Init == "restale" && len(c.Shapes) >= 2 {
+			half = (len(c.Shapes) + 1) / 2
+		}
+		for i, sp := range c.Shapes {
+			if i == half {
+				s.idx.Build()
+			}
 			sh := sp.Build()
 			s.shapes = append(s.shapes, sh)
 			s.idx.Add(sh)
@@ -382,6 +391,9 @@ func hook(name string) {
 		w.chkHit++
 	}
 	if r.ctl != nil {
+		if r.ctl.sparse && name == "index.midBuild" && w.midHit%6 != 1 && w.midHit%6 != 4 {
+			return // exhaustive mode parks before face 0 (nothing built) and face 3 (half built) only
+		}
 		r.ctl.events <- event{w.g, name}
 		<-r.ctl.resume[w.g]
 		return
@@ -398,9 +410,10 @@ func hook(name string) {
 // ---------------------------------------------------------------- expectations
 
 type expect struct {
-	a, b  [][]string // per goroutine: answers starting stale / starting built
-	dump  string
-	order int // answers that differ between the two serial runs
+	a, b     [][]string // per goroutine: answers starting stale / starting built
+	dump     string
+	order    int // answers that differ between the two serial runs
+	orderOps []string
 }
 
 func serial(c *Case) (expect, string) {
@@ -424,6 +437,7 @@ func serial(c *Case) (expect, string) {
 				for i := range out {
 					if out[i] != e.a[g][i] {
 						e.order++
+						e.orderOps = append(e.orderOps, c.G[g].Ops[i].K)
 					}
 				}
 			}
@@ -530,6 +544,7 @@ type event struct {
 type ctlState struct {
 	events chan event
 	resume []chan struct{}
+	sparse bool
 }
 
 type ctlResult struct {
@@ -576,7 +591,7 @@ func runCtl(c *Case, e *expect, sched []int) ctlResult {
 	n := len(c.G)
 	ws := make([]*wstate, n)
 	ctxs := make([]*wctx, n)
-	ct := &ctlState{events: make(chan event, 4*n+4)}
+	ct := &ctlState{events: make(chan event, 4*n+4), sparse: c.Mode == "exh"}
 	for g := range ws {
 		ws[g] = &wstate{g: g}
 		ctxs[g] = newCtx(c, sh)
@@ -821,6 +836,9 @@ func checkInProc(c Case) ev.Outcome {
 	}
 	if e.order > 0 {
 		o.Counts["answers_depending_on_build_state"] = e.order
+		for _, k := range e.orderOps {
+			o.Counts["answers_depending_on_build_state/"+k]++
+		}
 	}
 	if raceEnabled {
 		o.Counts["race_detector_on"] = 1
@@ -870,9 +888,9 @@ func checkInProc(c Case) ev.Outcome {
 			o.NonTrivial = true
 		}
 	case "exh":
-		limit, budget := 400, 8*time.Second
+		limit, budget := 500, 8*time.Second
 		if ev.Thorough() {
-			limit, budget = 2500, 25*time.Second
+			limit, budget = 2500, 20*time.Second
 		}
 		var sched []int
 		runs, maxStale := 0, 0
